@@ -21,7 +21,7 @@ mido = bootstrap()
 import mido.ports as mports  # noqa: E402
 
 KINDS = ('dev_io', 'dev_in', 'dev_out', 'echo', 'ioport', 'multi')
-STYLES = ('old', 'new', 'blocking')
+STYLES = ('old', 'new', 'blocking', 'bytewise')
 SHAPES = ('note_on', 'control_change', 'program_change', 'pitchwheel', 'sysex', 'songpos')
 RESET = [('control_change', ch, c) for ch in range(16) for c in (123, 121)]
 PANIC = [('control_change', ch, 120) for ch in range(16)]
@@ -82,8 +82,21 @@ class Device:
         seq = 0
         for dt, shape, pad in spec.get('arrivals', []):
             t += dt
-            m = make_msg(shape, sub, seq, pad)
-            self.arrivals.append((t, list(m.bytes()), m))
+            if shape == 'split_sysex':
+                # one sysex delivered in three pieces with a real-time byte in the middle piece: the clock is
+                # complete (and deliverable) before the sysex is
+                m = make_msg('sysex', sub, seq, pad)
+                enc = list(m.bytes())
+                cut = max(1, min(len(enc) - 1, 1 + pad % max(1, len(enc) - 1)))
+                rt = mido.Message('clock')
+                self.arrivals.append((t, enc[:cut], None))
+                self.arrivals.append((t + 0.002, [0xF8], rt))
+                self.arrivals.append((t + 0.004, enc[cut:], m))
+                self.rt_inside = True
+                t += 0.004
+            else:
+                m = make_msg(shape, sub, seq, pad)
+                self.arrivals.append((t, list(m.bytes()), m))
             seq += 1
         self.hangup = None
         h = spec.get('hangup')
@@ -100,6 +113,7 @@ class Device:
             clock.last_event = max(clock.last_event, a[0])
         if self.hangup is not None:
             clock.last_event = max(clock.last_event, self.hangup)
+        self.rt_inside = getattr(self, 'rt_inside', False)
         self.next = 0           # index of next arrival not yet handed to the port
         self.hung = False
         self.close_calls = 0
@@ -160,7 +174,11 @@ class Device:
             data.extend(self.arrivals[self.next][1])
             self.next += 1
         if data:
-            port._parser.feed(data)
+            if self.style == 'bytewise':
+                for b in data:
+                    port._parser.feed_byte(b)
+            else:
+                port._parser.feed(data)
         if self.hangup is not None and c.now >= self.hangup and not self.hung:
             self.hung = True
             self.log.ev('dev-hangup', self.sub, round(c.now - c.start, 6))
@@ -211,11 +229,11 @@ class Lifecycle(BaseEngine):
         return {'quick': 150_000, 'thorough': 15_000_000}
 
     # ---------------------------------------------------------------- generation
-    def _gen_dev(self, rng, can_hang=True):
+    def _gen_dev(self, rng, can_hang=True, split_ok=True):
         spec = {'style': pick(rng, STYLES), 'arrivals': []}
         for _ in range(weighted(rng, ((0, 1), (1, 2), (2, 3), (3, 2), (5, 1)))):
             spec['arrivals'].append([pick(rng, (0.0, 0.0, 0.0005, 0.003, 0.25, rng.random())),
-                                     pick(rng, SHAPES), rng.randrange(128)])
+                                     pick(rng, SHAPES + (('split_sysex',) if split_ok else ())), rng.randrange(128)])
         if can_hang and rng.random() < 0.45:
             n = len(spec['arrivals'])
             spec['hangup'] = [rng.randint(0, n), pick(rng, (0.0, 0.0, 0.001, 0.02, 0.3))]
@@ -240,9 +258,9 @@ class Lifecycle(BaseEngine):
                 'epilogue': rng.random() < 0.3}
         if kind == 'multi':
             n = rng.randint(1, 3)
-            plan['subs'] = [{'kind': 'dev_io', 'dev': self._gen_dev(rng)} for _ in range(n)]
+            plan['subs'] = [{'kind': 'dev_io', 'dev': self._gen_dev(rng, split_ok=False)} for _ in range(n)]
         elif kind == 'ioport':
-            plan['dev'] = self._gen_dev(rng, can_hang=False)
+            plan['dev'] = self._gen_dev(rng, can_hang=rng.random() < 0.4)
         else:
             plan['dev'] = self._gen_dev(rng)
         can_in = kind != 'dev_out'
@@ -389,8 +407,12 @@ class Lifecycle(BaseEngine):
                         ts.append(t)
             return min(ts) if ts else None
 
+        def input_gone():
+            """The IOPort wrapper stays open when the input port below it closed itself."""
+            return kind == 'ioport' and bool(subs[0].closed)
+
         def hangup_pending():
-            if is_multi or kind == 'ioport' or is_echo:
+            if is_multi or is_echo:
                 return False
             d = in_devs[0]
             return d.hangup is not None and not d.hung
@@ -407,6 +429,14 @@ class Lifecycle(BaseEngine):
             if nstreams > 1:
                 key = ident(m)
                 s = key[0] if key else -1
+                if key is None and m.type == 'clock':
+                    # a real-time byte that arrived inside a split sysex carries no identity: attribute it to the
+                    # first stream whose next taken-in message is a clock
+                    for cand in range(nstreams):
+                        q0 = taken(cand)
+                        if out[cand] < len(q0) and q0[out[cand]].type == 'clock':
+                            s = cand
+                            break
                 if not 0 <= s < nstreams:
                     raise Violation(f'unknown-message@{where}', f'{where} returned {m!r}, which was never taken in')
             q = taken(s)
@@ -498,7 +528,7 @@ class Lifecycle(BaseEngine):
                 stats['blocked_forever_legit'] += 1
                 return 'end'
             if tag == 'raised':
-                if not P().closed:
+                if not P().closed and not input_gone():
                     raise Violation(f'raised:{type(res).__name__}@{kind}.{where}',
                                     f'receive() raised {type(res).__name__}: {res} on an open port')
                 if model_pending() > 0:
@@ -692,9 +722,20 @@ class Lifecycle(BaseEngine):
                     dl = blocking_deadline(t0)
                     hang = hangup_pending()
                     was_closed = bool(P().closed)
-                    (tag, res), dt, sl = call('iter', lambda: next(it, StopIteration))
-                    log.ev('iter', tag, repr(res) if tag != 'device-read-error' else 'OSError', round(dt, 6))
+                    (tag, res), dt, sl = call('iter', lambda: next(it, StopIteration),
+                                              expect=(OSError, ValueError) if kind == 'ioport' else ())
+                    log.ev('iter', tag, repr(res) if tag not in ('device-read-error', 'raised') else 'error',
+                           round(dt, 6))
                     if tag == 'device-read-error':
+                        break
+                    if tag == 'raised':
+                        # iterating the wrapper after the input below it hung up: how that ends is not judged
+                        if not input_gone():
+                            raise Violation(f'raised:{type(res).__name__}@{kind}.iter', f'iteration raised {res!r}')
+                        if model_pending() > 0:
+                            raise Violation(f'closed-before-drained@{kind}.iter', 'iteration stopped with taken-in '
+                                                                                  'messages undelivered')
+                        stats['ioport_iter_after_input_hangup'] += 1
                         break
                     if tag == 'never-returned':
                         if dl is not None or was_closed or hang:
@@ -706,7 +747,7 @@ class Lifecycle(BaseEngine):
                         stop = True
                         break
                     if res is StopIteration:
-                        if not P().closed and not is_echo:
+                        if not P().closed and not is_echo and not input_gone():
                             raise Violation(f'iteration-ended-on-open-port@{kind}', 'iteration ended although the '
                                                                                     'port is open')
                         if model_pending() > 0:
